@@ -743,9 +743,33 @@ def glue_trio() -> None:
         if token_provided is None:  # pragma: no cover
             # Trio v0.23.1 had token_provided; v0.24+ don't
             token_provided = trio_token is not None
+
+        message = frame.pyframe.f_locals.get("message_to_trio")
+        if (
+            isinstance(next_inner, Frame)
+            and next_inner.funcname == "_send_message_to_trio"
+        ):
+            if message is None:  # pragma: no cover  # depends on Trio minor version
+                message = next_inner.pyframe.f_locals.get("message_to_trio")
+            if not token_provided:
+                # This is the token of the to_thread.run_sync() call that
+                # started our thread
+                trio_token = next_inner.pyframe.f_locals.get("trio_token")
+
+        # If a trio_token was specified, then this is a call that did not
+        # ultimately originate in Trio, so we should try to follow the link
+        # back to the system task that Trio uses to serve it. Without one,
+        # this is a reentrant call back into Trio from a
+        # to_thread.run_sync() function, and a system task is used only if
+        # that was to_thread.run_sync(..., abandon_on_cancel=True).
+        task = None
+        if message is not None and trio_token is not None:  # pragma: no branch
+            task = find_system_task_serving(trio_token, message)
+        if task is not None:
+            frame.hide = True
+            return task.coro
+
         if not token_provided:
-            # No trio_token specified, so this is a reentrant call
-            # back into Trio from a to_thread.run_sync() function.
             # The in-Trio portion will show up in the stack of
             # to_thread.run_sync() so don't duplicate it here.
             # Prune the plumbing (_send_message_to_trio, Queue.get(), etc)
@@ -753,52 +777,42 @@ def glue_trio() -> None:
             frame.hide = True
             return ()
 
-        # If a trio_token was specified, then this is a call that did not
-        # ultimately originate in Trio, so we should try to follow the link
-        # back to the Trio task if possible.
-        message = frame.pyframe.f_locals.get("message_to_trio")
-        if (
-            message is None
-            and isinstance(next_inner, Frame)
-            and next_inner.funcname == "_send_message_to_trio"
-        ):  # pragma: no cover  # depends on Trio minor version
-            message = next_inner.pyframe.f_locals.get("message_to_trio")
-        if message is not None:  # pragma: no branch
-            # Find the Trio runner that this token refers to
-            runner = None
-            try:
-                runner_tlocals = trio._core._run.GLOBAL_RUN_CONTEXT  # type: ignore
-            except AttributeError:  # pragma: no cover
-                return None
-            for ref in gc.get_referents(runner_tlocals):
-                if not isinstance(ref, dict):
-                    continue
-                for key, value in ref.items():
-                    if key == "runner" and value.trio_token is trio_token:
-                        # PyPy style: each thread's thread-locals dict is
-                        # directly referenced by the threading.local instance
-                        runner = value
-                        break
-                    if isinstance(value, dict) and (  # pragma: no branch
-                        runner := value.get("runner")
-                    ):
-                        # CPython style: each thread's thread-locals dict is
-                        # a value in one big dict keyed by weakrefs
-                        if runner.trio_token is trio_token:  # pragma: no branch
-                            break
-                else:  # pragma: no cover
-                    continue
-                break
-            else:  # pragma: no cover
-                return None
-
-            # Find the system task that matches this call
-            for task in runner.system_nursery.child_tasks:  # pragma: no branch
-                if task.context is message.context:  # pragma: no branch
-                    frame.hide = True
-                    return task.coro
-
         return None  # pragma: no cover
+
+    def find_system_task_serving(trio_token: Any, message: Any) -> Any:
+        # Find the Trio runner that this token refers to
+        runner = None
+        try:
+            runner_tlocals = trio._core._run.GLOBAL_RUN_CONTEXT  # type: ignore
+        except AttributeError:  # pragma: no cover
+            return None
+        for ref in gc.get_referents(runner_tlocals):
+            if not isinstance(ref, dict):
+                continue
+            for key, value in ref.items():
+                if key == "runner" and value.trio_token is trio_token:
+                    # PyPy style: each thread's thread-locals dict is
+                    # directly referenced by the threading.local instance
+                    runner = value
+                    break
+                if isinstance(value, dict) and (  # pragma: no branch
+                    runner := value.get("runner")
+                ):
+                    # CPython style: each thread's thread-locals dict is
+                    # a value in one big dict keyed by weakrefs
+                    if runner.trio_token is trio_token:  # pragma: no branch
+                        break
+            else:  # pragma: no cover
+                continue
+            break
+        else:  # pragma: no cover
+            return None
+
+        # Find the system task that matches this call
+        for task in runner.system_nursery.child_tasks:
+            if task.context is message.context:
+                return task
+        return None
 
     if trio_threads := getattr(trio, "_threads", None):  # pragma: no branch
         for clsname, fnname in (
